@@ -112,7 +112,9 @@ def check(case, ctx):
             ok = False
         elif dt.kind in "mM":
             if op == "rolling_mean":
-                ok = abs(g - e) <= unit_ns + abs(float(e)) * 2.0**-50
+                # the running sum of epoch integers is kept in float64: rounding bound of a w-term float sum, plus one unit
+                w_ = case["params"]["window"]
+                ok = abs(g - e) <= unit_ns + 4.0 * (w_ + 2) * 2.0**-52 * w_ * abs(float(e)) + abs(float(e)) * 2.0**-50
             else:
                 ok = g == e  # exact: sums, extremes, shift, diff (ns-normalised on both sides)
         elif op in ("rolling_min", "rolling_max", "shift"):
